@@ -378,6 +378,15 @@ func s2Items(name string, windows []int, k int, nalpha int, mons []string, suffi
 	var items []sched.Item
 	for _, w := range windows {
 		for first := 0; first < nalpha; first++ {
+			if k >= 6 {
+				// (items of a few hundred executions: an item must stay far below the pool's per-item limit on a loaded machine)
+				for second := 0; second < nalpha; second++ {
+					for third := 0; third < nalpha; third++ {
+						items = append(items, sched.Item{Scenario: name, Mode: "s2", Cut: w, Depth: k, Prefix: []int{first, second, third}, Mons: mons, Suffix: suffix})
+					}
+				}
+				continue
+			}
 			if k >= 4 {
 				for second := 0; second < nalpha; second++ {
 					items = append(items, sched.Item{Scenario: name, Mode: "s2", Cut: w, Depth: k, Prefix: []int{first, second}, Mons: mons, Suffix: suffix})
